@@ -114,6 +114,11 @@ func (r *RouteParam) Write(writer io.Writer) (int, error) {
 		return n, err
 	}
 	for _, param := range r.rrParam {
+		k, err := fmt.Fprint(writer, ";")
+		n += k
+		if err != nil {
+			return n, err
+		}
 		m, err := param.Write(writer)
 		n += m
 		if err != nil {
